@@ -65,12 +65,18 @@ func loadSTLAscii(file *os.File) ([]*sdf.Triangle3, error) {
 			v = append(v, v3.Vec{f[0], f[1], f[2]})
 		}
 	}
+	if err := scanner.Err(); err != nil {
+		return nil, err
+	}
 	// make triangles out of every 3 vertices
+	if len(v)%3 != 0 {
+		return nil, fmt.Errorf("ascii stl: %d vertex lines, not a multiple of 3", len(v))
+	}
 	var mesh []*sdf.Triangle3
 	for i := 0; i < len(v); i += 3 {
 		mesh = append(mesh, &sdf.Triangle3{v[i+0], v[i+1], v[i+2]})
 	}
-	return mesh, scanner.Err()
+	return mesh, nil
 }
 
 // loadSTLBinary loads an STL file created in binary format.
